@@ -246,7 +246,7 @@ Lemma other_step_frame c s l s' : step c s l = Some s' -> l <> Loop_Step -> l <>
   loop s' = loop s /\ exists extra, mailbox s' = mailbox s ++ extra /\
                                    (label_no_loop_ext l = true -> zero_msgs extra).
 Proof.
-  intros H H1 H2. destruct l as [m| | |w i|w|w|q]; try congruence; unfold step in H.
+  intros H H1 H2. destruct l as [m| | |w i|w|w|q|pt]; try congruence; unfold step in H.
   - destruct (forallb env_item m); [|discriminate]. inversion H; subst. split; [reflexivity|].
     exists [m]. split; [reflexivity|]. intro Hz. simpl in Hz. constructor; [|constructor].
     unfold msg_no_loop_ext in Hz. rewrite forallb_forall in Hz. apply Forall_forall.
@@ -268,6 +268,8 @@ Proof.
       intros _; constructor.
     + destruct (Alloc.step _ _) as [[[a' ?] ?] ?]. inversion H; subst. split; [reflexivity|].
       exists []. rewrite app_nil_r. split; [reflexivity|]. intros _; constructor.
+  - inversion H; subst. split; [reflexivity|]. exists []. rewrite app_nil_r. split; [reflexivity|].
+    intros _; constructor.
 Qed.
 
 Lemma label_eq_loop l : {l = Loop_Step} + {l = Loop_Unblock} + {l <> Loop_Step /\ l <> Loop_Unblock}.
@@ -515,7 +517,7 @@ Lemma step_wle c s l s' : step c s l = Some s' -> (forall w i, l <> Worker_Pop w
   wle (workers s) (workers s').
 Proof.
   intros H Hnp.
-  destruct l as [m| | |w i|w|w|q]; unfold step in H.
+  destruct l as [m| | |w i|w|w|q|pt]; unfold step in H.
   - destruct (forallb env_item m); [|discriminate]. inversion H; subst. apply wle_refl.
   - destruct (loop s) as [|[|it rest]|]; try discriminate.
     + destruct (mailbox s); [discriminate|]. inversion H; subst. apply wle_refl.
@@ -535,6 +537,7 @@ Proof.
     destruct (N.eqb (block_bytes (e :: l)) 0).
     + inversion H; subst. apply wle_refl.
     + destruct (Alloc.step _ _) as [[[a' ?] ?] ?]. inversion H; subst. apply wle_refl.
+  - inversion H; subst. apply wle_refl.
 Qed.
 
 Lemma label_is_pop l : {wi | l = Worker_Pop (fst wi) (snd wi)} + {forall w i, l <> Worker_Pop w i}.
@@ -645,15 +648,22 @@ Proof.
     + intro H; inversion H; subst. constructor.
 Qed.
 
-Lemma run_msgs_steps f c ms : forall s s' tr, run_msgs f c s ms = (s', tr) -> steps c s tr s'.
+Lemma run_script_steps f c es : forall s s' tr, run_script f c s es = (s', tr) -> steps c s tr s'.
 Proof.
-  induction ms as [|m ms IH]; intros s s' tr; cbn [run_msgs].
+  induction es as [|e es IH]; intros s s' tr; cbn [run_script].
   - intro H; inversion H; subst. constructor.
-  - destruct (step c s (Env_Msg m)) as [s1|] eqn:E1; [|intro H; inversion H; subst; constructor].
-    destruct (settle f c s1) as [s2 tr2] eqn:E2. destruct (run_msgs f c s2 ms) as [s3 tr3] eqn:E3.
+  - destruct (step c s (sev_label e)) as [s1|] eqn:E1; [|intro H; inversion H; subst; constructor].
+    destruct (settle f c s1) as [s2 tr2] eqn:E2. destruct (run_script f c s2 es) as [s3 tr3] eqn:E3.
     intro H; inversion H; subst. econstructor; [exact E1|].
     eapply steps_app; [eapply settle_steps; eauto | now apply IH].
 Qed.
+
+Lemma run_msgs_steps f c ms : forall s s' tr, run_msgs f c s ms = (s', tr) -> steps c s tr s'.
+Proof. intros s s' tr. apply run_script_steps. Qed.
+
+(* a write to the peer table is enabled in every state and changes nothing (see [step]) *)
+Lemma peer_table_write_never_blocks c s p : step c s (Env_PeerTable p) = Some s.
+Proof. reflexivity. Qed.
 
 Lemma run_msgs_reach f c ms : steps c (init c) (snd (run_msgs f c (init c) ms)) (fst (run_msgs f c (init c) ms)).
 Proof. apply (run_msgs_steps f c ms). apply surjective_pairing. Qed.
